@@ -176,7 +176,29 @@ impl Property for C15 {
                 lines.push(table.line(&values, t));
             }
         }
-        if !nan && table.cols.iter().any(|c| c.1 == Ty::Int) && t.chance(1, 6) {
+        // one regex-flavoured case in six: REALs that are mostly zeros of either sign (equal values that print differently)
+        let zeros = !nan && !table.json && table.cols.iter().any(|c| c.1 == Ty::Real) && t.chance(1, 6);
+        if zeros {
+            lines.clear();
+            let n = 2 + t.draw(10);
+            for _ in 0..n {
+                let values: Vec<V> = table
+                    .cols
+                    .iter()
+                    .map(|(_, ty)| {
+                        if t.chance(1, 4) {
+                            V::Null
+                        } else if *ty == Ty::Real {
+                            V::Real(*t.pick(&[-0.0, 0.0, -0.0, 0.25, -0.25]))
+                        } else {
+                            crate::props::c04::small_value(t, *ty)
+                        }
+                    })
+                    .collect();
+                lines.push(table.line(&values, t));
+            }
+        }
+        if !nan && !zeros && table.cols.iter().any(|c| c.1 == Ty::Int) && t.chance(1, 6) {
             // INT values whose squares / sums leave the range in which an f64 is exact (an overflow is an error in every order)
             lines.clear();
             let n = 2 + t.draw(8);
